@@ -314,13 +314,13 @@ Proof.
   rewrite Hprim.
   destruct (declared_assoc _ _ Hpn) as (pdef & Hpd).
   destruct (wf_lookup _ Hwf _ _ Hpd) as (Hpname & _ & _). apply wf_name_nobr in Hpname as [_ Hpne].
-  destruct (d_primary d) as [|p0 pr] eqn:Ep; [congruence|]. rewrite <- Ep in *.
+  assert (Hmatch : forall (A : Type) (l : bytes) (a b : A), l <> [] -> match l with [] => a | _ :: _ => b end = b)
+    by (intros A [|x l] a b Hne; congruence).
+  rewrite Hmatch by exact Hpne. cbv zeta.
   change EIP712Domain with domain_name.
-  rewrite (hashStruct_top H big_other _ _ Hrep Hwf Hdims domain_name _ _ Hdn Hdom Htd). cbn [bind].
-  unfold digest. destruct (bytes_eqb (d_primary d) domain_name) eqn:Eq; cbn [negb].
-  - rewrite app_nil_r. reflexivity.
-  - assert (Emsg : map_arg (td_message td) = match td_message td with Some m => GMap m | None => GNil end)
-      by (destruct (td_message td); reflexivity).
-    rewrite Emsg. rewrite (hashStruct_top H big_other _ _ Hrep Hwf Hdims (d_primary d) _ _ Hpn Hmsg Htm).
-    reflexivity.
+  destruct (td_domain td) as [dm|]; destruct (td_message td) as [mm|]; cbn [map_arg] in *;
+  rewrite (hashStruct_top H big_other _ _ Hrep Hwf Hdims domain_name _ _ Hdn Hdom Htd); cbn [bind].
+  all: unfold digest; destruct (bytes_eqb (d_primary d) domain_name) eqn:Eq; cbn [negb].
+  all: try (rewrite app_nil_r; reflexivity).
+  all: rewrite (hashStruct_top H big_other _ _ Hrep Hwf Hdims (d_primary d) _ _ Hpn Hmsg Htm); reflexivity.
 Qed.
